@@ -43,7 +43,7 @@ static inline void hmix(State& S, uint64_t v) { S.hash = (S.hash ^ v) * 10995116
 #define TRACE(S, ...) do { if ((S).cfg.trace) { fprintf(stderr, "[%llu] ", (unsigned long long)(S).op_index); fprintf(stderr, __VA_ARGS__); fputc('\n', stderr); } } while (0)
 
 static void check_errors(State& S, const char* what) {
-  if (vf_err_count != 0 && S.cfg.allow_null) {
+  if (vf_err_count != 0 && (S.cfg.allow_null || S.cfg.tolerate_enomem)) {
     // under injected OS refusals "out of memory" reports are expected; anything else is not
     int n = vf_err_count; if (n > VF_MAX_ERRS) n = VF_MAX_ERRS;
     bool only_nomem = true;
@@ -191,6 +191,26 @@ static void note_alloc_evidence(State& S, size_t n, size_t u) {
   if (S.sm.live_bytes > S.max_live_bytes) S.max_live_bytes = S.sm.live_bytes;
 }
 
+// C15: a heap bound to an arena only returns memory inside it; memory of an exclusive arena is never given to other heaps
+void arena_range_check(State& S, const void* p, size_t len, int heap_idx, const char* what) {
+  if (S.arenas.empty() || heap_idx < 0) return;
+  uintptr_t a = (uintptr_t)p, e = a + (len ? len : 1);
+  int bound = S.heaps[heap_idx].arena;
+  if (bound >= 0) {
+    const ArenaInfo& ai = S.arenas[bound];
+    if (a < ai.lo || e > ai.hi) vf_trip("outside-bound-arena", "C15", "%s from a heap bound to arena #%d returned [%p,+%zu) which is not inside the arena [%p,%p)", what, bound, p, len, (void*)ai.lo, (void*)ai.hi);
+    S.n_arena_inside++;
+  }
+  else {
+    for (size_t j = 0; j < S.arenas.size(); j++) {
+      const ArenaInfo& ai = S.arenas[j];
+      if (ai.exclusive && a < ai.given_hi && e > ai.given_lo)
+        vf_trip("exclusive-arena-leaked", "C15", "%s from heap #%d (not bound to it) returned [%p,+%zu) inside exclusive arena #%zu [%p,%p)", what, heap_idx, p, len, j, (void*)ai.given_lo, (void*)ai.given_hi);
+    }
+    S.n_arena_outside++;
+  }
+}
+
 // checks on a freshly returned block; registers it in the shadow model and patterns it
 static vf::Blk* accept_block(State& S, void* p, size_t n, int heap, size_t a, size_t o, bool zero, int ep, bool skip_fill = false) {
   if (S.region_check && !mi_is_in_heap_region(p) && vf_os_page_state(p) < 0)
@@ -211,6 +231,7 @@ static vf::Blk* accept_block(State& S, void* p, size_t n, int heap, size_t a, si
     if (S.dirty_freed.count((uintptr_t)p)) S.n_zero_reused_dirty++;
     if (bad != SIZE_MAX) vf_trip("not-zero", "C04", "%s(n=%zu, align=%zu, offset=%zu) returned %p: byte %zu is 0x%02x", ep_names[ep], n, a, o, p, bad, ((uint8_t*)p)[bad]);
   }
+  arena_range_check(S, p, u, heap, ep_names[ep]);
   vf::Blk* b = S.sm.add(p, n, u, heap, a, o, zero, ep);
   if (!skip_fill) S.sm.fill(b);
   S.n_alloc++; S.ep_count[ep]++;
@@ -296,6 +317,7 @@ vf::Blk* do_alloc(State& S, int force_ep, size_t force_size) {
   if (p == nullptr) {
     S.n_alloc_null++;
     if (a > ALIGN_MAX_OFFSETTABLE && o != 0) { vf_err_reset(); return nullptr; }   // documented: no offset beyond half a segment
+    if (hi >= 0 && S.heaps[hi].arena >= 0) { S.n_arena_null++; vf_err_reset(); return nullptr; }    // a heap bound to a full arena returns NULL (no OS fallback)
     if (!S.cfg.allow_null) {
       vf_os_counts_t c; vf_os_get_counts(&c);
       uint64_t refused = 0; for (int i = 0; i < VF_OS__NCLASS; i++) refused += c.failed_real[i] + c.injected[i];
@@ -492,7 +514,7 @@ static void do_realloc(State& S) {
   TRACE(S, "%s %p(id=%llu n=%zu u=%zu) -> n=%zu a=%zu o=%zu heap=%d : %p", ep_names[ep], (void*)p, (unsigned long long)old.id, old.n, old.u, nn, a, o, hi, q);
   if (q == nullptr) {
     S.n_realloc_null++;
-    bool documented_null = (a > ALIGN_MAX_OFFSETTABLE && o != 0);
+    bool documented_null = (a > ALIGN_MAX_OFFSETTABLE && o != 0) || (hi >= 0 && S.heaps[hi].arena >= 0) || (old.heap >= 0 && S.heaps[old.heap].arena >= 0 && !heapv);
     if (!S.cfg.allow_null && !documented_null) {
       vf_os_counts_t c; vf_os_get_counts(&c);
       uint64_t refused = 0; for (int i = 0; i < VF_OS__NCLASS; i++) refused += c.failed_real[i] + c.injected[i];
@@ -542,6 +564,7 @@ static void do_realloc(State& S) {
     if (!aligned && ((uintptr_t)q & (need - 1)) != 0) vf_trip("alignment", "C03", "%s(n=%zu) returned %p which is not %zu-byte aligned", ep_names[ep], nn, q, need);
   }
   int nheap = (moved ? hi : old.heap);
+  arena_range_check(S, q, u, nheap, ep_names[ep]);
   vf::Blk* nb = S.sm.add(q, nn, u, nheap, na, no, keep_zt, ep);   // overlap test: the old block's range was released only if it moved
   S.sm.fill(nb);
   note_alloc_evidence(S, nn, u);
